@@ -212,3 +212,11 @@ Proof. split; [exists [1;0]%N; vm_compute; auto|vm_compute; reflexivity]. Qed.
 (** C18_orbits / C18_orbits_cover: the canonicaliser's orbit list of the example: {r_1,r_2}, {A,B}, {C} *)
 Example ex_canon_orbits : orbits_from_perms (min_leaves g1) = [[3;4];[1;0];[2]]%N.
 Proof. rewrite min_leaves_g1. vm_compute. reflexivity. Qed.
+
+(** C18_net_renamed_ids: the premises hold for the example network under the renaming fx *)
+Example ex_renamed_ids : net_ok true (rename_net fx n1) /\ inj_on fx (nspecies n1 ++ map rid (nrxns n1)) /\
+  view true true (rename_net fx n1) <> view true true n1.
+Proof.
+  split; [split; [apply nodup_N; vm_compute; reflexivity|split; [apply closed_n; vm_compute; reflexivity|apply nodup_NN; vm_compute; reflexivity]]|].
+  split; [intros x y _ _; apply fx_inj|vm_compute; discriminate].
+Qed.
